@@ -36,6 +36,20 @@ type Acct struct {
 
 func (Acct) TableName() string { return "accts" }
 
+// Stock: a COMPOSITE primary key with a prioritized member (the field named ID). In the Coq terms a Stock is
+// a rec with r_id = ID, r_name = Region, r_age = Qty, r_email = Note (no tracked times, no soft delete).
+type Stock struct {
+	ID     uint   `gorm:"primaryKey;autoIncrement:false"`
+	Region string `gorm:"primaryKey"`
+	Qty    int64
+	Note   string
+}
+
+func (Stock) TableName() string { return "stocks" }
+
+func toStock(r Rec) Stock   { return Stock{ID: uint(r.ID), Region: r.Name, Qty: r.Age, Note: r.Email} }
+func fromStock(s Stock) Rec { return Rec{ID: int64(s.ID), Name: s.Region, Age: s.Qty, Email: s.Note} }
+
 // ---- JSON twin of the Coq terms -------------------------------------------------------
 
 // Rec: times are seconds after [base]; 0 = the zero time.Time; Del nil = NULL.
@@ -95,6 +109,10 @@ type Fin struct {
 	Inline []Cond   `json:"inline,omitempty"`
 	Vals   []Rec    `json:"vals,omitempty"` // save_slice: Save(&[]Acct{...}); create_oc_slice: Create(&[]Acct{...})
 	PtrPtr bool     `json:"ptrptr,omitempty"` // save: Save(&ptr)
+	CID    int64    `json:"cid,omitempty"`     // c_foc: Where(map{id, region})
+	CRegion string  `json:"cregion,omitempty"`
+	CAttrs *string  `json:"cattrs,omitempty"`  // c_foc: Attrs(map{note})
+	CAssign *int64  `json:"cassign,omitempty"` // c_foc: Assign(map{qty})
 	Batch  int      `json:"batch,omitempty"`  // create_oc_slice: CreateInBatches(&slice, n); 0 = Create(&slice)
 	Omits  []string `json:"omits,omitempty"` // save_omit: Omit(cols...).Save(&v), columns in either spelling
 	OmitSpell string `json:"omit_spell,omitempty"` // db | field
@@ -105,6 +123,9 @@ type Input struct {
 	Chain    []Cel `json:"chain"`
 	Fin      Fin   `json:"fin"`
 	NoReturn bool  `json:"no_returning"` // dialector configured without RETURNING
+	// Composite: the step runs on the Stock table (composite key (id, region)); Tbl rows are Stocks in rowid
+	// order. Fin kinds: c_save | c_save_slice | c_create_oc | c_foc
+	Composite bool `json:"composite,omitempty"`
 }
 type Obs struct {
 	Ret    Rec    `json:"ret"`
@@ -221,6 +242,8 @@ func openEnv(noReturning bool) *env {
 	_, err = sqlDB.Exec(`CREATE TABLE accts (id integer PRIMARY KEY, name text, age integer, email text,
 		created_at datetime, updated_at datetime, deleted_at datetime)`)
 	lib.Must(err)
+	_, err = sqlDB.Exec(`CREATE TABLE stocks (id integer, region text, qty integer, note text, PRIMARY KEY (id, region))`)
+	lib.Must(err)
 	// a SECOND unique index: e-mails starting with "u" are unique (ordinary e-mails never start with u)
 	_, err = sqlDB.Exec(`CREATE UNIQUE INDEX accts_uemail ON accts(email) WHERE email LIKE 'u%'`)
 	lib.Must(err)
@@ -284,7 +307,120 @@ func isWrite(q string) bool {
 type ctxMark struct{}
 
 // run executes one step on real gorm.
+func (e *env) restoreC(tbl []Rec) error {
+	if _, err := e.sql.Exec("DELETE FROM stocks"); err != nil {
+		return err
+	}
+	for _, r := range tbl {
+		if _, err := e.sql.Exec("INSERT INTO stocks (id,region,qty,note) VALUES (?,?,?,?)", r.ID, r.Name, r.Age, r.Email); err != nil {
+			return err
+		}
+	}
+	return nil
+}
+func (e *env) dumpC() ([]Rec, error) {
+	rows, err := e.sql.Query("SELECT id,region,qty,note FROM stocks ORDER BY rowid")
+	if err != nil {
+		return nil, err
+	}
+	defer rows.Close()
+	out := []Rec{}
+	for rows.Next() {
+		var r Rec
+		var reg, note sql.NullString
+		var qty sql.NullInt64
+		if err := rows.Scan(&r.ID, &reg, &qty, &note); err != nil {
+			return nil, err
+		}
+		r.Name, r.Age, r.Email = reg.String, qty.Int64, note.String
+		out = append(out, r)
+	}
+	return out, rows.Err()
+}
+
+// runC: one step on the composite-key table
+func runC(e *env, in Input) Obs {
+	var o Obs
+	if err := e.restoreC(in.Tbl); err != nil {
+		o.Setup = err.Error()
+		return o
+	}
+	cur = tm(in.Now)
+	e.rec.Reset()
+	tx := e.db
+	for _, c := range in.Chain {
+		if c.Kind == "session" {
+			tx = tx.Session(&gorm.Session{})
+		} else if c.Kind == "ctx" {
+			tx = tx.WithContext(context.WithValue(context.Background(), ctxMark{}, 1))
+		}
+	}
+	var res *gorm.DB
+	var dest Stock
+	f := in.Fin
+	switch f.Kind {
+	case "c_save":
+		dest = toStock(*f.Val)
+		res = tx.Save(&dest)
+	case "c_save_slice":
+		sl := make([]Stock, len(f.Vals))
+		for i, v := range f.Vals {
+			sl[i] = toStock(v)
+		}
+		res = tx.Save(&sl)
+	case "c_create_oc":
+		dest = toStock(*f.Val)
+		oc := clause.OnConflict{}
+		if f.Target {
+			oc.Columns = []clause.Column{{Name: "id"}, {Name: "region"}}
+		}
+		switch f.Rule {
+		case "nothing":
+			oc.DoNothing = true
+		case "updates":
+			oc.DoUpdates = clause.AssignmentColumns(f.Cols)
+		case "all":
+			oc.UpdateAll = true
+		}
+		res = tx.Clauses(oc).Create(&dest)
+	case "c_foc":
+		tx = tx.Where(map[string]interface{}{"id": f.CID, "region": f.CRegion})
+		if f.CAttrs != nil {
+			tx = tx.Attrs(map[string]interface{}{"note": *f.CAttrs})
+		}
+		if f.CAssign != nil {
+			tx = tx.Assign(map[string]interface{}{"qty": *f.CAssign})
+		}
+		res = tx.FirstOrCreate(&dest)
+	default:
+		o.Setup = "unknown composite finisher " + f.Kind
+		return o
+	}
+	o.Ret = fromStock(dest)
+	o.RA = res.RowsAffected
+	if res.Error != nil {
+		o.Err = res.Error.Error()
+	}
+	for _, ev := range e.rec.Snapshot() {
+		switch ev.Kind {
+		case "exec", "query", "stmt_exec", "stmt_query":
+			if isWrite(ev.Query) {
+				o.Writes++
+			}
+		}
+	}
+	t, err := e.dumpC()
+	if err != nil {
+		o.Setup = err.Error()
+	}
+	o.Tbl = t
+	return o
+}
+
 func run(e *env, in Input) Obs {
+	if in.Composite {
+		return runC(e, in)
+	}
 	var o Obs
 	if err := e.restore(in.Tbl); err != nil {
 		o.Setup = err.Error()
@@ -512,7 +648,31 @@ func gCel(c Cel) string {
 	return "ECtx"
 }
 func gFin(f Fin) string {
+	optS := func(p *string) string {
+		if p == nil {
+			return "None"
+		}
+		return "(Some " + lib.Str(*p) + ")"
+	}
+	optZ := func(p *int64) string {
+		if p == nil {
+			return "None"
+		}
+		return "(Some " + lib.Z(*p) + ")"
+	}
 	switch f.Kind {
+	case "c_save":
+		return lib.App("FCSave", gRec(*f.Val))
+	case "c_save_slice":
+		return lib.App("FCSaveSlice", lib.ListOf(f.Vals, gRec))
+	case "c_create_oc":
+		rule := map[string]string{"nothing": "RNothing", "all": "RAll"}[f.Rule]
+		if f.Rule == "updates" {
+			rule = lib.App("RUpdates", lib.ListOf(f.Cols, func(c string) string { return map[string]string{"qty": "CAge", "note": "CEmail"}[c] }))
+		}
+		return lib.App("FCCreateOC", rule, gRec(*f.Val))
+	case "c_foc":
+		return lib.App("FCFoc", lib.Z(f.CID), lib.Str(f.CRegion), optS(f.CAttrs), optZ(f.CAssign))
 	case "save":
 		return lib.App("FSave", gRec(*f.Val))
 	case "save_slice":
@@ -1039,6 +1199,61 @@ func genUnique(r *lib.Rng, now int64) Input {
 	return Input{Tbl: tbl, Now: now, NoReturn: r.Chance(1, 4), Fin: f}
 }
 
+// genComposite draws one step on the composite-key table.
+func genComposite(r *lib.Rng, state []Rec, now int64) Input {
+	val := func() Rec {
+		return Rec{ID: int64(1 + r.Intn(2)), Name: lib.Pick(r, []string{"eu", "us"}), Age: int64(r.Intn(9)), Email: lib.Pick(r, []string{"", "a", "b", "c"})}
+	}
+	in := Input{Tbl: append([]Rec(nil), state...), Now: now, Composite: true, NoReturn: r.Chance(1, 4)}
+	if r.Chance(1, 3) {
+		in.Chain = []Cel{sessionEl(r)}
+		in.Chain[0].Opt = ""
+	}
+	switch r.Intn(4) {
+	case 0:
+		v := val()
+		in.Fin = Fin{Kind: "c_save", Val: &v}
+	case 1:
+		var vals []Rec
+		seen := map[string]bool{}
+		for i, n := 0, r.Range(2, 3); i < n; i++ {
+			v := val()
+			k := fmt.Sprint(v.ID, v.Name)
+			if seen[k] {
+				continue
+			}
+			seen[k] = true
+			vals = append(vals, v)
+		}
+		in.Fin = Fin{Kind: "c_save_slice", Vals: vals}
+	case 2:
+		v := val()
+		f := Fin{Kind: "c_create_oc", Val: &v, Target: true}
+		switch r.Intn(3) {
+		case 0:
+			f.Rule, f.Target = "nothing", r.Bool()
+		case 1:
+			f.Rule = "updates"
+			f.Cols = lib.Pick(r, [][]string{{"qty"}, {"note"}, {"qty", "note"}, {"note", "qty"}})
+		default:
+			f.Rule, f.Target = "all", r.Chance(1, 3) // mostly the DEFAULT conflict target (all primary fields)
+		}
+		in.Fin = f
+	default:
+		f := Fin{Kind: "c_foc", CID: int64(1 + r.Intn(2)), CRegion: lib.Pick(r, []string{"eu", "us"})}
+		if r.Bool() {
+			n := lib.Pick(r, []string{"p", "q"})
+			f.CAttrs = &n
+		}
+		if r.Bool() {
+			q := int64(10 + r.Intn(5))
+			f.CAssign = &q
+		}
+		in.Fin = f
+	}
+	return in
+}
+
 func findRow(t []Rec, id int64) *Rec {
 	for i := range t {
 		if t[i].ID == id {
@@ -1065,9 +1280,42 @@ func slicePattern(in Input) string {
 	return sb.String()
 }
 
+func compositeCollision(in Input, v Rec) string {
+	full, member := false, false
+	for _, row := range in.Tbl {
+		if row.ID == v.ID && row.Name == v.Name {
+			full = true
+		} else if row.ID == v.ID || row.Name == v.Name {
+			member = true
+		}
+	}
+	switch {
+	case full:
+		return "full-key"
+	case member:
+		return "one-member"
+	}
+	return "none"
+}
+
 func shape(in Input, o Obs) string {
 	var sb strings.Builder
 	sb.WriteString(in.Fin.Kind)
+	if in.Composite {
+		f := in.Fin
+		fmt.Fprintf(&sb, "|%s%v%v|", f.Rule, f.Target, f.Cols)
+		if f.Val != nil {
+			sb.WriteString(compositeCollision(in, *f.Val))
+		}
+		for _, v := range f.Vals {
+			sb.WriteString(compositeCollision(in, v) + ",")
+		}
+		if f.Kind == "c_foc" {
+			fmt.Fprintf(&sb, "%s a%v q%v", compositeCollision(in, Rec{ID: f.CID, Name: f.CRegion}), f.CAttrs != nil, f.CAssign != nil)
+		}
+		fmt.Fprintf(&sb, "|ra%d|w%d|e%v|n%d|nr%v", o.RA, o.Writes, o.Err != "", len(in.Tbl), in.NoReturn)
+		return sb.String()
+	}
 	if in.Fin.Kind == "save_slice" {
 		sb.WriteString(":" + slicePattern(in))
 	}
@@ -1127,6 +1375,9 @@ func shape(in Input, o Obs) string {
 }
 
 func nontrivial(in Input, o Obs) bool {
+	if in.Composite {
+		return len(in.Tbl) > 0
+	}
 	switch in.Fin.Kind {
 	case "create_u":
 		return true
@@ -1173,6 +1424,14 @@ func main() {
 			}
 		}
 		out.Count("finisher", fk)
+		if in.Composite {
+			if in.Fin.Val != nil {
+				out.Count("composite_collision", in.Fin.Kind+":"+compositeCollision(in, *in.Fin.Val))
+			}
+			for _, v := range in.Fin.Vals {
+				out.Count("composite_collision", in.Fin.Kind+":"+compositeCollision(in, v))
+			}
+		}
 		if in.Fin.Kind == "save_slice" {
 			out.Count("slice_pattern(s=stored key,d=soft-deleted,f=fresh key,z=zero key)", slicePattern(in))
 		}
@@ -1248,6 +1507,25 @@ func main() {
 		budget = a.N
 	}
 	for n := 0; n < budget; {
+		if r.Chance(1, 8) {
+			// a history on the COMPOSITE-key table: keys (id, region) over {1,2} x {eu,us}, so values collide on
+			// the full key and on one member only
+			var cstate []Rec
+			for _, k := range [][2]interface{}{{int64(1), "eu"}, {int64(1), "us"}, {int64(2), "eu"}} {
+				if r.Chance(2, 5) {
+					cstate = append(cstate, Rec{ID: k[0].(int64), Name: k[1].(string), Age: int64(1 + r.Intn(8)), Email: lib.Pick(r, []string{"", "a", "b"})})
+				}
+			}
+			for s, steps := 0, r.Range(5, 9); s < steps && n < budget; s++ {
+				in := genComposite(r, cstate, int64(10*(s+2)))
+				o := add("composite-key", in)
+				n++
+				if o.Setup == "" {
+					cstate = o.Tbl
+				}
+			}
+			continue
+		}
 		// one history: a small table, then steps on the evolving state
 		var state []Rec
 		for id := int64(1); id <= 4; id++ {
@@ -1296,6 +1574,6 @@ func main() {
 			}
 		}
 	}
-	out.Extra["rule"] = "a case is ONE step on a table of 0..n rows over keys 1..4 (+ rowid-assigned keys): Save(v) | Omit(subset of name,age,email,updated_at in column or field spelling).Save(v) on stored, soft-deleted, missing and zero keys with zero-valued fields | Create+OnConflict rule on a slice (Create(&slice) or CreateInBatches) | Save(&ptr) | Save(&slice of 2-4 values mixing stored keys, fresh keys and zero keys in any order; the slice handed back is compared element by element and is saved again by a later step; RETURNING dialect) | Create+OnConflict{DoNothing, DoUpdates(subset of name,age,email,updated_at,deleted_at), UpdateAll}(v), optionally conditional (OnConflict.Where = stored age < k on DoUpdates/UpdateAll, OnConflict.TargetWhere = age < k; colliding rows on both sides of the condition) | the same rules, with and without explicit Columns=[id], on a stand-alone table with a second (partial) UNIQUE index on e-mails starting with 'u' and incoming rows whose e-mail is free, their own or held by another (live or soft-deleted) row | FirstOrInit | FirstOrCreate, preceded by a chain of Where(struct|map|raw 'age > ?') / Attrs / Assign (struct by value or by pointer, map in column or field spelling, key-value; 1-2 arguments) in any order with Session / WithContext inserted at chain positions (Session with every result-neutral option: none, SkipDefaultTransaction, QueryFields, CreateBatchSize, Logger, NowFunc, DisableNestedTransaction, FullSaveAssociations, PropagateUnscoped; statement-cloning forms WithContext, Session{Context}, Session{PrepareStmt}); the last chain condition may come through Scopes(...); steps are chained into histories of 6..12 steps on the evolving table with soft/hard deletions in between; v is fresh (key 0 or 1..4) or a previously stored row edited. Session/WithContext are inserted at EVERY chain position, also after Attrs/Assign (stream session-after-attrs forces that shape, the fixed finding clone-drops-attrs). Domain: at most one Attrs and one Assign per chain, key-value form alone, two-argument forms in column spelling, Attrs/Assign keys among name/age/email, type-correct values, one inline condition. distinct = distinct (finisher, rule+cols, collision kind, chain form, inline form, RowsAffected, writes, error, table size); non-trivial = the value's key collides with a stored row (Save/upsert) or the chain has a condition and a non-empty Attrs/Assign on a non-empty table (FirstOr*)."
+	out.Extra["rule"] = "a case is ONE step on a table of 0..n rows over keys 1..4 (+ rowid-assigned keys): Save(v) | Omit(subset of name,age,email,updated_at in column or field spelling).Save(v) on stored, soft-deleted, missing and zero keys with zero-valued fields | Create+OnConflict rule on a slice (Create(&slice) or CreateInBatches) | Save(&ptr) | Save(&slice of 2-4 values mixing stored keys, fresh keys and zero keys in any order; the slice handed back is compared element by element and is saved again by a later step; RETURNING dialect) | Create+OnConflict{DoNothing, DoUpdates(subset of name,age,email,updated_at,deleted_at), UpdateAll}(v), optionally conditional (OnConflict.Where = stored age < k on DoUpdates/UpdateAll, OnConflict.TargetWhere = age < k; colliding rows on both sides of the condition) | the same rules, with and without explicit Columns=[id], on a stand-alone table with a second (partial) UNIQUE index on e-mails starting with 'u' and incoming rows whose e-mail is free, their own or held by another (live or soft-deleted) row | histories (1 in 8) of Save / Save(&slice) / Create+OnConflict (DoNothing, DoUpdates, UpdateAll with the explicit (id, region) target or the DEFAULT one) / FirstOrCreate on a second model type with a COMPOSITE primary key (id, region) over {1,2} x {eu,us}: collisions on the full key and on one member only | FirstOrInit | FirstOrCreate, preceded by a chain of Where(struct|map|raw 'age > ?') / Attrs / Assign (struct by value or by pointer, map in column or field spelling, key-value; 1-2 arguments) in any order with Session / WithContext inserted at chain positions (Session with every result-neutral option: none, SkipDefaultTransaction, QueryFields, CreateBatchSize, Logger, NowFunc, DisableNestedTransaction, FullSaveAssociations, PropagateUnscoped; statement-cloning forms WithContext, Session{Context}, Session{PrepareStmt}); the last chain condition may come through Scopes(...); steps are chained into histories of 6..12 steps on the evolving table with soft/hard deletions in between; v is fresh (key 0 or 1..4) or a previously stored row edited. Session/WithContext are inserted at EVERY chain position, also after Attrs/Assign (stream session-after-attrs forces that shape, the fixed finding clone-drops-attrs). Domain: at most one Attrs and one Assign per chain, key-value form alone, two-argument forms in column spelling, Attrs/Assign keys among name/age/email, type-correct values, one inline condition. distinct = distinct (finisher, rule+cols, collision kind, chain form, inline form, RowsAffected, writes, error, table size); non-trivial = the value's key collides with a stored row (Save/upsert) or the chain has a condition and a non-empty Attrs/Assign on a non-empty table (FirstOr*)."
 	lib.Must(out.Flush())
 }
